@@ -420,7 +420,15 @@ func runC06(c *Ctx) {
 					}
 				}
 				w.step(in)
-				if st, ok := in.(*ssa.Store); ok && r.isStoreTo(in, r.head) {
+				storesHead := r.isStoreTo(in, r.head)
+				if st0, isSt := in.(*ssa.Store); isSt && !storesHead {
+					// a stepping helper that advances whichever index it is handed (step(&b.head)): the address as
+					// seen on this path
+					if fr, ok := asFieldAddr(pt.valueAt(st0.Addr, idx)); ok && fr.SName == r.T && fr.Field == r.head {
+						storesHead = true
+					}
+				}
+				if st, ok := in.(*ssa.Store); ok && storesHead {
 					lastHeadStore = in
 					if sv := w.lin(st.Val); sv.OK && sv.eq(linConst(0)) && haveWrap {
 						w.mem[headKey] = lastWrapOf.add(Lf, -1)
